@@ -11,19 +11,19 @@ RM_NOTE = ("Trusted base: the Go toolchain; the harness overlay (starts the real
 
 CLAIMS = {
     "C01": dict(engine="rm", technique="runtime monitoring: set-relation oracle over policy snapshot + runtime shadow after every request of generated histories",
-                text="Exploration: the real topology-aware pipeline is driven with thousands of generated request histories (create/start/update/stop/remove, synchronize, reconfigure) on a catalogue of synthetic machines under random accepted configurations; after every request an oracle checks exclusive-set disjointness, absence from other containers' told cpusets and from every pool's shared set, containment in the available CPUs and the reserved-CPU class rule. Held on K executions, not verified.",
+                text="Exploration: the real topology-aware pipeline is driven with thousands of generated request histories (create/start/update/stop/remove, synchronize, reconfigure) on a catalogue of synthetic machines under random accepted configurations (biases: capacity-boundary requests, kernel-isolated CPUs, opt-outs, memory pressure, out-of-order and lost events); after every request an oracle checks exclusive-set disjointness, absence from other containers' told cpusets and from every pool's shared set, containment in the available CPUs and the reserved-CPU class rule. Held on K executions, not verified.",
                 ref="DESIGN.md §4 C01"),
     "C02": dict(engine="rm", technique="runtime monitoring: partition/confinement/idle-sharing/limits/CPU-class oracle after every request",
                 text="Exploration: the real balloons pipeline under random balloon-type configurations; after every request the oracle checks balloon disjointness, membership, told cpuset = balloon + shared idle CPUs (one thread per core when hidden), idle-sharing scope from the machine model, min/max CPUs and instances, sizing vs requests and CPU classes.",
                 ref="DESIGN.md §4 C02"),
     "C03": dict(engine="rm", technique="runtime monitoring: capacity ledger + doc-derived eligibility table + kubelet shares formula",
-                text="Exploration with fill-biased histories: per-pool promised shared/reserved milli-CPU vs remaining CPUs, ledger equality, non-empty cpusets, exclusive CPU count vs an eligibility table transcribed from the documentation, isolated-CPU rules, cpu.shares = kubelet encoding of the granted capacity, grant amount = request.",
+                text="Exploration with fill-biased histories: per-pool promised shared/reserved milli-CPU vs remaining CPUs, ledger equality, non-empty cpusets, exclusive CPU count vs an eligibility table transcribed from the documentation, isolated-CPU rules, cpu.shares = kubelet encoding of the granted capacity, grant amount = request, and conservation of every pool's CPU supply (free CPUs belong to the supply they are free in; a CPU that is not free is held exclusively by some grant).",
                 ref="DESIGN.md §4 C03"),
     "C04": dict(engine="rm", technique="runtime monitoring: shadow mems = allocator zone; Hall-condition fit over all node subsets",
-                text="Exploration with memory-pressure histories under both policies on machines with PMEM/HBM/CPU-less/movable-only/memory-less nodes: told cpuset.mems equals the allocator's assigned zone, is non-empty and only has nodes with memory; after every successful request every node subset holds no more confined allocations than its capacity.",
+                text="Exploration with memory-pressure histories under both policies on machines with PMEM/HBM/CPU-less/movable-only/memory-less nodes: told cpuset.mems equals the allocator's assigned zone, is non-empty and only has nodes with memory; after every successful request every node subset holds no more confined allocations than its capacity - by the allocator's own records and, independently, by lower bounds of the containers' requests taken from the runtime model.",
                 ref="DESIGN.md §4 C04"),
     "C05": dict(engine="rm", technique="runtime monitoring: runtime shadow vs cache getters, pending set, addressing rules on every reply/push",
-                text="Exploration under both policies: after every request the resources the runtime was told (adjustment + updates + pushes) equal the cache's, nothing is pending, no duplicate update, no update to the container being created or to a stopped/removed one.",
+                text="Exploration under both policies: after every request the resources the runtime was told (adjustment + updates + pushes) equal the cache's, nothing is pending, no duplicate update, no update to the container being created or to a stopped/removed one; histories include out-of-order deliveries (RemoveContainer without StopContainer, StopPodSandbox before its containers' events) and periods in which events are lost until the next Synchronize.",
                 ref="DESIGN.md §4 C05"),
     "C09": dict(engine="rm", technique="runtime monitoring: per-step holder check + end-of-history comparison with a fresh twin instance",
                 text="Exploration: after every request no stopped/removed/uncached container holds a grant, balloon membership or memory allocation; at the end of every history everything is stopped and removed and the policy snapshot is compared with a fresh instance configured with the last accepted configuration.",
@@ -51,10 +51,10 @@ CLAIMS.update({
                 text="Fault enumeration: (1) thousands of generated caches are saved and reloaded, and a fingerprint over every public getter (identity, state, resources, requirements and updates, tags, hints, affinities, policy entries) must be equal; (2) child processes performing K saving operations are killed at every system call touching the cache file or its temporary file, and get ENOSPC/EIO/EDQUOT/EACCES injected at the same points: the state directory must load without error and equal the state before or after the interrupted operation; (3) every prefix of a snapshot planted as the temporary file must be ignored; (4) the cache file is only ever replaced by rename; (5) a cache file, state directory or container directory that is a symlink, of the wrong type or group/other-writable must be refused with nothing changed, and valid set-ups accepted.",
                 ref="DESIGN.md §4 C10, §10.9"),
     "C11": dict(engine="rm", category="fault_enumeration", technique="runtime monitoring with fault injection: plugin restarts on current/stale state directories with runtime drift, reference (cache-less) plugin as oracle",
-                text="Fault enumeration: histories with 1-2 restarts; the state directory is snapshotted at a PRNG-chosen request boundary, the plugin is taken down, the runtime drifts (containers created/started/stopped/removed), the plugin restarts on the current or the stale directory and is synchronized; the oracle checks that exactly the runtime's live containers hold allocations (decided against a cache-less reference plugin synchronized with the same lists), that gone pods/containers are purged, and all C01-C05/C09/C12 monitors on the restart and on every later request.",
+                text="Fault enumeration: histories with 1-2 restarts; the state directory is snapshotted at a PRNG-chosen request boundary, the plugin is taken down, the runtime drifts (containers created/started/stopped/removed), the plugin restarts on the current or the stale directory and is synchronized; (incl. whole pods vanishing and pods re-created under the same name), the oracle checks that exactly the runtime's live containers hold allocations (capacity decided against a cache-less reference plugin synchronized with the same lists under unique pod names), that gone pods/containers are purged, and the clauses of C01-C05/C09/C12 on the restart and on every later request, reported under C11.",
                 ref="DESIGN.md §4 C11"),
     "C13": dict(engine="rm", technique="runtime monitoring: before/after observation around every reconfiguration (incl. policy-internal state) + differential twins with self-twin calibration",
-                text="Exploration: every reconfiguration inside generated histories is bracketed by observations (per-container cache resources, runtime view, advertised zones, policy assignments, policy-internal state steering later decisions): identical configs and rejected configs of every rejection kind must change nothing, accepted ones must leave every live container allocated; differential twins replay a deterministic history with a rejected update injected at a PRNG-chosen boundary and compare every later request.",
+                text="Exploration: every reconfiguration inside generated histories is bracketed by observations (per-container cache resources, runtime view, advertised zones, policy assignments, policy-internal state steering later decisions): identical configs and rejected configs of every rejection kind (half of them derived from a fresh random configuration, so that anything applied before the rejection shows) must change nothing - including the cache's implicit-affinity registry and the policies' own copies of the available/reserved sets -, accepted ones must leave every live container allocated and satisfy the clauses of C01-C05/C12 on that request; differential twins replay a deterministic history with a rejected update injected at a PRNG-chosen boundary and compare every later request.",
                 ref="DESIGN.md §4 C13"),
     "C14": dict(engine="rm", note=RM_NOTE + " Side plugins: in-package test drivers (overlay) set the plugin struct up as main() does and call the NRI handlers directly; log.Fatal is turned into a panic via logrus' ExitFunc; a child process that dies is attributed to the call logged before it.",
                 technique="runtime monitoring: hostile well-formed NRI requests through the real handlers under recover(), canary lifecycles / differential canaries against a fresh instance, process-death attribution",
@@ -62,10 +62,10 @@ CLAIMS.update({
                 ref="DESIGN.md §4 C14, §10.8"),
     "C15": dict(engine="rm", note=RM_NOTE + " Race reports come from the Go race detector (happens-before: reports real races on executed paths only, never false ones).",
                 technique="runtime monitoring: Go race detector over concurrent handler bursts; porcupine linearizability check of cache membership; state-invariant monitors at quiescence; watchdog for deadlocks",
-                text="Exploration: a -race build of the real pipeline (both policies) receives bursts of 2-6 concurrent requests (container and pod lifecycle, updates, Synchronize, reconfigure, policy events) plus a fake kubelet pod-resources server with PRNG delays; the race detector must stay silent (reports are deduplicated by site pair), the recorded call/return history must be linearizable against a sequential membership model, all order-independent C01-C05/C09 clauses are checked at quiescence, a watchdog flags bursts that never return, and a pod inserted with a pending resource fetch must see its result.",
+                text="Exploration: a -race build of the real pipeline (both policies) receives bursts of 2-6 concurrent requests (container and pod lifecycle, updates, Synchronize, reconfigure, policy events) plus a fake kubelet pod-resources server with PRNG delays; the race detector must stay silent (reports are deduplicated by site pair), the recorded call/return history must be linearizable against a sequential membership model, all order-independent C01-C05/C09 clauses are checked at quiescence, a watchdog flags bursts that never return (the fake kubelet also fails and answers after the client's timeout; the first instance of each process runs with the metrics exporter and its lock), a hook asserts that unsolicited updates are sent with the pipeline lock held, every fourth history races reconfigurations that are rejected after the policy started applying them against creates (no reply may pin to CPUs outside the accepted configurations' available sets), and a pod inserted with a pending resource fetch - also one already known from a Synchronize, also one answered late - must see its result.",
                 ref="DESIGN.md §4 C15, §10.2"),
     "C16": dict(engine="lib", note=LIB_NOTE, technique="runtime monitoring: discovered sysfs.System vs generating machine model; topology-aware pool tree vs shape computed from model + configuration",
-                text="Exploration: thousands of generated machines written as sysfs trees; every accessor of the discovered system is compared with the generating model; for several configurations per machine the real topology-aware backend is set up and its pool tree (root, levels, CPU splits, memory attachment incl. CPU-less PMEM/HBM nodes) is compared with the documented shape.",
+                text="Exploration: thousands of generated machines written as sysfs trees (one in six with the pre-5.3 attribute names only); every accessor of the discovered system is compared with the generating model; for several configurations per machine the real topology-aware backend is set up (directly, or by Reconfigure() on a backend set up with the previous configuration) and its pool tree (root, levels, CPU splits, memory attachment incl. CPU-less PMEM/HBM nodes) is compared with the documented shape.",
                 ref="DESIGN.md §4 C16"),
     "C17": dict(engine="agent", note="Trusted base: the Go toolchain; the in-package test driver (fake ConfigInterface, recorder callback). The watch plumbing is not driven: events are fed to the agent's two update functions exactly as the select loop of Agent.Start calls them.",
                 technique="runtime monitoring: exhaustive event-sequence enumeration to depth 5/6 with trace invariants and a doc-derived reference state machine",
@@ -76,7 +76,7 @@ CLAIMS.update({
                 text="Exploration: annotation maps with container names that are prefixes/suffixes of each other and look-alike keys; for the resource-policy cache every policy annotation key is resolved through the real cache pod/container lookups in 4 insertion orders x 16 repetitions; for memory-qos, memtierd and sgx-epc every map is evaluated 16 times through the real handlers with shuffled map order and once reduced to the effective annotations; results are compared with the documented precedence (container-specific > pod-wide > bare key) and, in memory-qos/memtierd, explicit cgroup parameters must override class-derived values.",
                 ref="DESIGN.md §4 C18, §10.8"),
     "C19": dict(engine="lib", note=LIB_NOTE, technique="runtime monitoring: operator duality, doc-derived reference evaluator, joint keys, weight clamping, balloon-type selection through the real policy",
-                text="Exploration: hundreds of thousands of expressions evaluated on real cache pods/containers against dual-operator laws and a reference evaluator written from the documentation; affinity weights parsed from real annotations; balloon type observed in the real balloons policy against the documented selection order.",
+                text="Exploration: hundreds of thousands of expressions evaluated on real cache pods/containers against dual-operator laws and a reference evaluator written from the documentation; affinity weights parsed from real annotations; balloon type observed in the real balloons policy against the documented selection order (random allocator priorities, pre-created instances, types re-ordered by a reconfiguration).",
                 ref="DESIGN.md §4 C19"),
     "C20": dict(engine="lib", note=LIB_NOTE, technique="runtime monitoring: exhaustive CPU encode/decode laws; sampled + structured memory capacities with full adjustment round trips",
                 text="Exploration (CPU part exhaustive): all milli-CPU values 0..256000, all shares 2..262144 and all quotas are checked for tolerance, exactness and monotonicity; the memory estimate table is built under recover for >100k capacities >= 1 MiB and every Burstable adjustment is round-tripped; containers of the three QoS classes go through the real cache.",
